@@ -397,11 +397,14 @@ impl ScopeReturnStatus {
     }
 
     pub fn eq_for_signature_checking(&self, rhs: &Self) -> Result<bool> {
-        if self == rhs {
-            return Ok(true);
-        }
-
+        // `eq_complex` starts with `==` on the two types. Comparing the statuses with `==` before
+        // that compared the result types twice, and so 2^depth times for a function type whose
+        // result is a function type whose result is ...
         let (Some(lhs), Some(rhs)) = (self.get_type(), rhs.get_type()) else {
+            if self == rhs {
+                return Ok(true);
+            }
+
             bail!("not applicable")
         };
 
